@@ -53,7 +53,7 @@ ASSUMPTIONS = [
     'state attributes a format cannot store are not compared: MEMPTR and fe in Z80 files, tstates in Z80 v1/v2, 7ffd/fffd/ay in Z80 v1, issue2 on 128K machines',
     '7ffd/fffd/ay[] are generated for 128K machines only and bank prefixes for 128K snapshots only (documented as 128K-only)',
     'snapmod applies --patch, then --move, then --poke options (each kind in command-line order), then registers and state; a --state 7ffd that changes the paged bank is not combined with un-prefixed memory options',
-    'bank-prefixed ranges stay inside one 16K bank; un-prefixed addresses are 16384..65535; poke values, patch bytes and register values are in range for their width',
+    'bank-prefixed poke/move ranges stay inside one 16K bank; a bank-prefixed patch file may run past the end of the bank (the excess names no cell and must change nothing); un-prefixed addresses are 16384..65535; poke values, patch bytes and register values are in range for their width',
     'numbers are written in decimal or with a 0x prefix (the documented forms)',
     'Z80 byte 12 is never 255 in reference-encoded inputs (legacy "255 means 1" rule not exercised)',
     'SNA: SP is the value stored in the header and PC the word it points to (48K) - skoolkit\'s reading of the format',
@@ -419,6 +419,9 @@ def apply_move(mem, spec):
 
 def apply_patch(mem, spec, data):
     page, addr = _page(spec)
+    if page is not None:
+        # a RAM bank has 16384 cells: bytes of the file beyond its end name no cell of that bank and change nothing
+        data = data[:16384 - num(addr) % 16384]
     for j, v in enumerate(data):
         mem.put(page, num(addr) + j, v)
 
@@ -815,8 +818,9 @@ MOVE_BANK = st.tuples(BANK, BANK, BANKADDR, BANKADDR, st.integers(1, 700), st.bo
 PATCH_DATA = solid(st.one_of(st.lists(BYTE, min_size=1, max_size=8).map(lambda l: bytes(l).hex()),
                              st.tuples(SEED, st.integers(1, 700)).map(lambda t: _rand(t[0], t[1]).hex())))
 PATCH = st.tuples(ADDR, PATCH_DATA).map(lambda t: ['patch', '%d' % min(t[0], 65536 - len(t[1]) // 2), t[1]])
-PATCH_BANK = st.tuples(BANK, BANKADDR, PATCH_DATA).map(
-    lambda t: ['patch', '%d:%d' % (t[0], t[1] - max(0, t[1] % 16384 + len(t[2]) // 2 - 16384)), t[2]])
+PATCH_BANK = st.tuples(BANK, BANKADDR, PATCH_DATA, st.sampled_from([0, 0, 0, 0, 1])).map(
+    lambda t: ['patch', '%d:%d' % (t[0], (t[1] // 16384 * 16384 + 16384 - max(1, len(t[2]) // 4)) if t[3] else
+                                   t[1] - max(0, t[1] % 16384 + len(t[2]) // 2 - 16384)), t[2]])      # t[3]: the file runs past the end of the bank
 REGOP = REGSPEC.map(lambda s: ['reg', s])
 STATEOP48 = STATE48.map(lambda s: ['state', s])
 STATEOP128 = STATE128.map(lambda s: ['state', s])
